@@ -237,6 +237,11 @@ def make_weights(shape, rep, start=1.0):
     t = torch.tensor(nl, dtype=torch.get_default_dtype()).reshape(tuple(shape))
     if rep == "tensor":
         return t, tuple(shape)
+    rev = tuple(reversed(range(t.dim())))
+    if rep == "tensor_perm":        # the same dense tensor as a non-contiguous (permuted) view
+        return t.permute(rev).contiguous().permute(rev), tuple(shape)
+    if rep == "patterned_perm":     # ... and as a patterned tensor whose virtual axes are a permutation of its physical axes
+        return PatternedTensor(t.permute(rev).contiguous()).permute(rev), tuple(shape)
     return PatternedTensor(t), tuple(shape)
 
 
@@ -615,6 +620,9 @@ def factor_init_cases(max_rank=3, max_ext=3):
         for shp in shapes:
             for rep in ("list", "tensor", "patterned"):
                 cases.append({"kind": "factor_init", "doms": doms, "shape": shp, "rep": rep})
+            if len(shp) >= 2 and len(shp) == len(doms):
+                for rep in ("tensor_perm", "patterned_perm"):
+                    cases.append({"kind": "factor_init", "doms": doms, "shape": shp, "rep": rep})
     # an infinite domain anywhere -> TypeError whatever the weights
     for doms in ([["I"]], [["F", 2], ["I"]], [["I"], ["R", 2]]):
         for shp in ([], [2], [2, 2]):
